@@ -73,9 +73,14 @@ def doc_obs(spec):
         return None
     ops = []
     for path, item in sorted((spec.get("paths") or {}).items()):
+        found = False
         for verb in VERB_KEYS:
             if verb in (item or {}):
                 ops.append(op_obs(path, verb, item[verb]))
+                found = True
+        if not found:
+            # a path item without any operation still publishes the path: shown as an operation of no annotated verb
+            ops.append(op_obs(path, "<no-operation>", {}))
     return ops
 
 
